@@ -226,6 +226,23 @@ Proof.
   - intros y _. apply Sound_bndR; [exact IH | intros t; apply Mono_ret | intros t _; apply Sound_ret].
 Qed.
 
+Lemma Mono_hashingS : forall (A B : Type) (key : B -> pv) (f : A -> MC (res B)) x,
+  MonoC (f x) -> MonoC (hashingS rt key f x).
+Proof. intros A B key f x H. unfold hashingS. apply Mono_bndR; [exact H | intros y; apply Mono_ret]. Qed.
+Lemma Mono_elem_convS : forall k (f : pv -> MC (res pv)) x, MonoC (f x) -> MonoC (elem_convS rt k f x).
+Proof. intros k f x H. unfold elem_convS. destruct (hashes k); [apply Mono_hashingS|]; exact H. Qed.
+Lemma Sound_hashingS : forall (A B : Type) (key : B -> pv) (f : A -> MC (res B)) (g : A -> res B) x,
+  MonoC (f x) -> SoundC (f x) (g x) -> SoundC (hashingS rt key f x) (hashing rt key g x).
+Proof.
+  intros A B key f g x Hm Hs. unfold hashingS, hashing.
+  apply Sound_bndR; [exact Hs | intros y; apply Mono_ret | intros y _; apply Sound_ret].
+Qed.
+Lemma Sound_elem_convS : forall k (f : pv -> MC (res pv)) (g : pv -> res pv) x,
+  MonoC (f x) -> SoundC (f x) (g x) -> SoundC (elem_convS rt k f x) (elem_conv rt k g x).
+Proof.
+  intros k f g x Hm Hs. unfold elem_convS, elem_conv. destruct (hashes k); [apply Sound_hashingS|]; assumption.
+Qed.
+
 Lemma Mono_first_okS : forall (F : routine -> pv -> MC (res pv)) sup l x,
   (forall r, MonoC (F r x)) -> MonoC (first_okS sup (map F l) x).
 Proof.
@@ -511,9 +528,9 @@ Proof.
   { intros rk rv kv. apply Mono_bndR; [apply IH|]. intros k'. apply Mono_bndR; [apply IH | intros v'; apply Mono_ret]. }
   destruct d; destruct r as [s| | |k r'|k rk rv|rs|nl rs|c fields|t]; cbn [runS]; try apply Mono_ret.
   - apply Mono_bndR; [apply loadS_mono|]. intros dd. apply Mono_bndR; [apply Mono_ret|]. intros vs.
-    apply Mono_bndR; [apply Mono_mapMS; intros v; apply IH | intros rs; apply Mono_ret].
+    apply Mono_bndR; [apply Mono_mapMS; intros v; apply Mono_elem_convS; apply IH | intros rs; apply Mono_ret].
   - apply Mono_bndR; [apply loadS_mono|]. intros dd. apply Mono_bndR; [apply Mono_ret|]. intros kvs.
-    apply Mono_bndR; [apply Mono_mapMS; intros kv; apply IHkv | intros rs; apply Mono_ret].
+    apply Mono_bndR; [apply Mono_mapMS; intros kv; apply Mono_hashingS; apply IHkv | intros rs; apply Mono_ret].
   - apply Mono_bndR; [apply loadS_mono|]. intros dd. apply Mono_bndR; [apply Mono_ret|]. intros vs.
     destruct (Nat.ltb (length vs) (length rs)); [apply Mono_ret|].
     apply Mono_bndR; [apply Mono_mapMS; intros v; apply IH | intros out; apply Mono_ret].
@@ -525,7 +542,7 @@ Proof.
   - apply Mono_bndR; [apply Mono_ret|]. intros vs.
     apply Mono_bndR; [apply Mono_mapMS; intros v; apply IH | intros rs; apply Mono_ret].
   - apply Mono_bndR; [apply Mono_ret|]. intros kvs.
-    apply Mono_bndR; [apply Mono_mapMS; intros kv; apply IHkv | intros rs; apply Mono_ret].
+    apply Mono_bndR; [apply Mono_mapMS; intros kv; apply Mono_hashingS; apply IHkv | intros rs; apply Mono_ret].
   - apply Mono_bndR; [apply Mono_ret|]. intros vs.
     apply Mono_bndR; [apply Mono_mapMS; intros v; apply IH | intros out; apply Mono_ret].
   - destruct (nl && is_none_val rt x); [apply Mono_ret|]. apply Mono_first_okS. intros r. apply IH.
@@ -550,19 +567,19 @@ Proof.
   - (* RSeq, unmarshal *)
     apply Sound_bndR; [apply loadS_sound | |].
     + intros dd. apply Mono_bndR; [apply Mono_ret|]. intros vs.
-      apply Mono_bndR; [apply Mono_mapMS; intros v; apply runS_mono | intros rs; apply Mono_ret].
+      apply Mono_bndR; [apply Mono_mapMS; intros v; apply Mono_elem_convS; apply runS_mono | intros rs; apply Mono_ret].
     + intros dd _. apply Sound_bndR; [apply Sound_ret | |].
-      * intros vs. apply Mono_bndR; [apply Mono_mapMS; intros v; apply runS_mono | intros rs; apply Mono_ret].
-      * intros vs _. apply Sound_bndR; [apply Sound_mapMS; [intros v; apply runS_mono | intros v; apply IH] | |].
+      * intros vs. apply Mono_bndR; [apply Mono_mapMS; intros v; apply Mono_elem_convS; apply runS_mono | intros rs; apply Mono_ret].
+      * intros vs _. apply Sound_bndR; [apply Sound_mapMS; [intros v; apply Mono_elem_convS; apply runS_mono | intros v; apply Sound_elem_convS; [apply runS_mono | apply IH]] | |].
         -- intros rs. apply Mono_ret.
         -- intros rs _. apply Sound_ret.
   - (* RMap, unmarshal *)
     apply Sound_bndR; [apply loadS_sound | |].
     + intros dd. apply Mono_bndR; [apply Mono_ret|]. intros kvs.
-      apply Mono_bndR; [apply Mono_mapMS; intros kv; apply Mkv | intros rs; apply Mono_ret].
+      apply Mono_bndR; [apply Mono_mapMS; intros kv; apply Mono_hashingS; apply Mkv | intros rs; apply Mono_ret].
     + intros dd _. apply Sound_bndR; [apply Sound_ret | |].
-      * intros kvs. apply Mono_bndR; [apply Mono_mapMS; intros kv; apply Mkv | intros rs; apply Mono_ret].
-      * intros kvs _. apply Sound_bndR; [apply Sound_mapMS; [intros kv; apply Mkv | intros kv; apply IHkv] | |].
+      * intros kvs. apply Mono_bndR; [apply Mono_mapMS; intros kv; apply Mono_hashingS; apply Mkv | intros rs; apply Mono_ret].
+      * intros kvs _. apply Sound_bndR; [apply Sound_mapMS; [intros kv; apply Mono_hashingS; apply Mkv | intros kv; apply Sound_hashingS; [apply Mkv | apply IHkv]] | |].
         -- intros rs. apply Mono_ret.
         -- intros rs _. apply Sound_ret.
   - (* RTuple, unmarshal *)
@@ -599,8 +616,8 @@ Proof.
       * intros rs _. apply Sound_ret.
   - (* RMap, marshal *)
     apply Sound_bndR; [apply Sound_ret | |].
-    + intros kvs. apply Mono_bndR; [apply Mono_mapMS; intros kv; apply Mkv | intros rs; apply Mono_ret].
-    + intros kvs _. apply Sound_bndR; [apply Sound_mapMS; [intros kv; apply Mkv | intros kv; apply IHkv] | |].
+    + intros kvs. apply Mono_bndR; [apply Mono_mapMS; intros kv; apply Mono_hashingS; apply Mkv | intros rs; apply Mono_ret].
+    + intros kvs _. apply Sound_bndR; [apply Sound_mapMS; [intros kv; apply Mono_hashingS; apply Mkv | intros kv; apply Sound_hashingS; [apply Mkv | apply IHkv]] | |].
       * intros rs. apply Mono_ret.
       * intros rs _. apply Sound_ret.
   - (* RTuple, marshal *)
